@@ -28,6 +28,13 @@ func TestMain(m *testing.M) {
 		}
 		return checkGrammar(&c)
 	})
+	stats.RegisterReplay("limit", func(raw json.RawMessage) error {
+		var c LimitCase
+		if err := json.Unmarshal(raw, &c); err != nil {
+			return err
+		}
+		return checkGrammar(c.gram())
+	})
 	stats.RegisterReplay("roundtrip", func(raw json.RawMessage) error {
 		var c RoundTrip
 		if err := json.Unmarshal(raw, &c); err != nil {
@@ -203,6 +210,83 @@ func TestGrammarExhaustive(t *testing.T) {
 	stats.Note("exhaustive_host", fmt.Sprintf("all strings over {{ } a . - 1} up to length %d followed by '/'", l2))
 	enumerate(t, "/{}*a.-1", l1, "")
 	enumerate(t, "{}a.-1", l2, "/")
+}
+
+// LimitCase: a pattern built to sit at a limit - N wildcards, or one wildcard whose name has N bytes - under given limits
+// (-1 = router default, which is also the largest value the options accept).
+type LimitCase struct {
+	Shape     string `json:"shape"`
+	N         int    `json:"n"`
+	MaxParams int    `json:"max_params"`
+	MaxKey    int    `json:"max_key"`
+}
+
+var limitShapes = []string{"params", "prefixed-params", "params-then-catchall", "host-and-path-params", "param-name", "catchall-name"}
+
+func (c *LimitCase) gram() *GramCase {
+	var p string
+	switch c.Shape {
+	case "params":
+		p = strings.Repeat("/{p}", c.N)
+	case "prefixed-params":
+		p = strings.Repeat("/a{p}", c.N)
+	case "params-then-catchall":
+		p = strings.Repeat("/{p}", c.N-1) + "/*{c}"
+	case "host-and-path-params":
+		p = "{h}.b" + strings.Repeat("/{p}", c.N-1)
+	case "param-name":
+		p = "/{" + strings.Repeat("n", c.N) + "}"
+	case "catchall-name":
+		p = "/x*{" + strings.Repeat("n", c.N) + "}/y"
+	}
+	return &GramCase{Pattern: stats.B(p), MaxParams: c.MaxParams, MaxKey: c.MaxKey}
+}
+
+// TestLimitBoundaries: the configured limits at their exact boundaries, including the defaults (the largest configurable values),
+// where the count that must be refused no longer fits the option's own type.
+func TestLimitBoundaries(t *testing.T) {
+	limits := []int{-1, 0, 1, 2, 255, 256, 257, 1000, 32767, 32768, 65534, 65535}
+	cases := 0
+	for _, shape := range limitShapes {
+		for _, l := range limits {
+			eff := lim(l)
+			seen := map[int]bool{}
+			for _, n := range []int{eff - 1, eff, eff + 1, eff + 2, 2*eff + 1, 65535, 65536, 65537, 65536 + eff, 131071, 131072, 131073} {
+				if n < 1 || n > 140000 || seen[n] || (n > eff+2 && n < 65535 && l >= 0 && l < 1000) {
+					continue
+				}
+				seen[n] = true
+				c := &LimitCase{Shape: shape, N: n, MaxParams: -1, MaxKey: -1}
+				if strings.HasSuffix(shape, "-name") {
+					c.MaxKey = l
+				} else {
+					c.MaxParams = l
+				}
+				stats.Eval()
+				stats.NonTrivial(fmt.Sprintf("limit|%+v", *c))
+				switch {
+				case n == eff+1:
+					stats.Class("limit:first-count-beyond-the-limit")
+				case n == eff:
+					stats.Class("limit:exactly-at-the-limit")
+				case n > 65535:
+					stats.Class("limit:count-beyond-16-bits")
+				}
+				if cases++; cases%17 == 3 {
+					stats.Sample(c)
+				}
+				if err := checkGrammar(c.gram()); err != nil {
+					msg := err.Error()
+					if len(msg) > 600 {
+						msg = msg[:200] + " ... " + msg[len(msg)-380:]
+					}
+					stats.Fail("limit", c, "%+v: %s", *c, msg)
+					t.Fatalf("%+v: %s", *c, msg)
+				}
+			}
+		}
+	}
+	stats.Note("limit_boundaries", fmt.Sprintf("%d patterns: %d shapes x limits %v (-1 = default) x counts around each limit and around 65536 and 131072", cases, len(limitShapes), limits))
 }
 
 var gramTokens = []string{"/", "/", "a", "ab", "{", "}", "*", "{p}", "{ab}", "{abc}", "{abcd}", "*{c}", "*{cd}", "*{cde}", ".", "-", "1", "{}", "*{}", "**", "x{p}", "x*{c}", "{p}x", "{a.b}", "{a/b}", "com", "é", "%2F", "}{", "*}"}
